@@ -32,23 +32,35 @@ MANIFEST = dict(
          'byte-identical, a second save is the identity, any number of look/save cycles is lossless; save completes whenever '
          'writers look only where readers looked (decidable on the graph). Each clause of order_consistent and each flag of the '
          'shape (raw data cleared before the reader finished = seeded c10_2; save walking a snapshot of the cached views = '
-         'seeded c10_1) is shown harmful by a closed counterexample. Container: read (write c) = Some c for every well-formed '
+         'seeded c10_1) is shown harmful by a closed counterexample. Writers whose stores are conditional (SM/LazyLumpsCond.v): '
+         'a skipped store of a lump the view clears IS a store of b\'\' (save_c = save with the filled writer, all graphs / '
+         'histories), so such a writer is lossless iff the reader makes of b\'\' exactly the value for which the store is skipped '
+         '(seeded c10_4 refuted in closed form); the translator lists every store under a data-dependent condition and the '
+         'obligation cleared_lumps_are_never_stored_conditionally forbids them on cleared lumps. Writers that store a lump no '
+         'view owns (FACEIDS; SM/LazyLumpsSide.v): if on the values parsed from the file each such store puts back what the file '
+         'holds, saving with them equals saving without them pointwise, hence lossless; fabricated / zero-padded ids refuted. '
+         'Container: read (write c) = Some c for every well-formed '
          'container and layout with LZMA as an inverse pair (header, 64-row table in standard and L4D2 field order, revision, '
          'payload placement in write order, game-lump directory with absolute offsets, NUL separators and the dummy entry); '
          'four wf conditions shown necessary. order_consistent bsp_graph, shape_ok bsp_shape, layout_ok bsp_layout, '
-         'bsp_layout = std_layout and 18 further named obligations are re-derived from bsp.py and kernel-checked on every run.',
+         'bsp_layout = std_layout and 21 further named obligations are re-derived from bsp.py and kernel-checked on every run.',
     note='Assumed in the theorems (visible hypotheses): each lump writer inverts its reader on the file\'s lumps (codec_ok, '
          'wr_len_ok: property C11); decompress (compress d) = d (CPython lzma). The container theorem is about the model '
          'Fmt/BspContainer.v, tied to BSP.read/BSP.save by byte-exact correspondence on random containers (not by a translator of '
          'the save body beyond its constants and loop shape); negative int32 fields, files >= 2 GiB, duplicate game-lump ids and '
          'truncated files are outside wf. Writers that append to a view they look at (find_or_insert) are classified and '
          'obliged to be read-or-append only; that appends are no-ops on values parsed from the file (every referenced item is '
-         'already in its table: C11 find_or_insert_sound) is assumed, checked end to end by the oracle. Not modelled, searched '
-         'only: FACEIDS (conditionally stored, unowned), VitaminSource-only branches, hidden mutation of the ents view by the '
+         'already in its table: C11 find_or_insert_sound) is assumed, checked end to end by the oracle. FACEIDS (unowned, stored '
+         'conditionally by the three face writers) is modelled under the visible hypothesis side_ok, whose data half (the ids '
+         'written are the bytes of the file) is checked by the oracle only, on FACEIDS lumps that are full, all zero, empty and '
+         'shorter than the face array; a FACEIDS lump LONGER than the face array (no compiler writes one) is cut to the face '
+         'count by a look at faces + save (same parsed content, different bytes): outside the inputs searched. Not modelled, '
+         'searched only: VitaminSource-only branches, hidden mutation of the ents view by the '
          'bmodels reader, zipfile. A save that raises because a writer looks at an unparsable view of a malformed file produces no '
          'file and is not counted as a violation. Trusted: Coq kernel + vm_compute, translate/c10_bspgraph.py (may-analysis; its '
          'result must contain every dynamically traced dependency), hand models SM/LazyLumps.v and Fmt/BspContainer.v (tied by '
-         'correspondence), harness/c10_util.py, CPython lzma/zipfile.',
+         'correspondence; SM/LazyLumpsCond.v and SM/LazyLumpsSide.v extend the first and are tied only through the obligations '
+         'on the translated store lists), harness/c10_util.py, CPython lzma/zipfile.',
 )
 
 IMPORTS = ['SV.SM.LazyLumps', 'SV.SM.LazyLumpsProofs', 'SV.Fmt.BspContainer', 'SV.Gen.BspGraph_gen', 'Coq.Strings.String', 'Coq.Lists.List', 'Coq.Arith.Arith', 'Coq.Bool.Bool']
@@ -834,6 +846,11 @@ def run(ck: Ck) -> None:
             # some data-dependent condition ("only when used") leaves it empty in the saved file (seeded c10_4)
             'cleared_lumps_are_never_stored_conditionally':
                 f'forallb (fun p => negb (existsb (fun j => mem (snd p) (own bsp_graph j)) (seq 0 ({n})))) bsp_cond_stores',
+            # hypothesis side_ok of c10_store_outside_view_lossless, its graph half: a writer stores, outside the lumps of
+            # its own view, only lumps that no view owns (FACEIDS)
+            'stores_outside_the_view_go_to_unowned_lumps':
+                'forallb (fun p => mem (snd p) (own bsp_graph (fst p)) || '
+                f'negb (existsb (fun j => mem (snd p) (own bsp_graph j)) (seq 0 ({n})))) (bsp_stores ++ bsp_cond_stores)',
             'conditional_stores_only_FACEIDS_unowned': 'forallb (fun p => Nat.eqb (snd p) 11 && '
                                                        f'negb (existsb (fun j => mem 11 (own bsp_graph j)) (seq 0 ({n})))) bsp_cond_stores',
             # statement order of ParsedLump.__get__ and loop shape of BSP.save (hypothesis shape_ok of the theorems)
@@ -1038,7 +1055,7 @@ def run(ck: Ck) -> None:
                    'order_consistent_bsp_graph', 'every_dependency_later_in_rebuild_order', 'no_writer_looks_at_its_own_view',
                    'no_reader_looks_at_its_own_view', 'every_cleared_lump_stored_by_its_writer', 'no_lump_owned_twice',
                    'every_view_in_rebuild_order', 'no_two_views_share_a_main_lump', 'raw_reads_own_or_unowned',
-                   'stores_go_to_owned_lumps', 'conditional_stores_only_FACEIDS_unowned',
+                   'stores_go_to_owned_lumps', 'conditional_stores_only_FACEIDS_unowned', 'stores_outside_the_view_go_to_unowned_lumps',
                    'cleared_lumps_are_never_stored_conditionally'):
             if inst.get(nm) is False:
                 ck.explain('instance:' + nm)
